@@ -744,7 +744,7 @@ pub fn gen_dec_valid(rng: &mut Rng, limit: bool) -> DecCase {
 pub fn gen_dec_hostile(rng: &mut Rng) -> DecCase {
     let enc = *rng.pick(&ENCS);
     let (mut bytes, starts, _msgs) = gen_valid_stream(rng, enc, 60);
-    match rng.below(9) {
+    match rng.below(12) {
         0 => {
             // bad flag on some frame
             if let Some(s) = starts.get(rng.below(starts.len().max(1) as u64) as usize) {
@@ -781,6 +781,17 @@ pub fn gen_dec_hostile(rng: &mut Rng) -> DecCase {
             // garbage compressed payload
             bytes.extend(frame(1, &{ let n = rng.below(20) as usize; rng.bytes(n) }));
             bytes.extend(frame(0, &[9, 9]));
+        }
+        8 | 9 | 10 => {
+            // a length prefix that is a few bytes too short or too long for its payload (all the
+            // bytes stay): the rest of the payload / the next header is read as something else
+            if !starts.is_empty() {
+                let s = starts[rng.below(starts.len() as u64) as usize];
+                let len = u32::from_be_bytes([bytes[s + 1], bytes[s + 2], bytes[s + 3], bytes[s + 4]]);
+                let k = 1 + rng.below(12) as u32;
+                let new = if rng.chance(2, 3) { len.saturating_sub(k.min(len)) } else { len + k };
+                bytes[s + 1..s + 5].copy_from_slice(&new.to_be_bytes());
+            }
         }
         7 => {
             // trailing partial header
